@@ -29,7 +29,7 @@ def apply(root, m):
         p = os.path.join(root, rel)
         s = open(p).read()
         if s.count(old) < 1:
-            raise SystemExit(f"mutant {m['id']}: pattern not found in {rel}: {old[:60]!r}")
+            raise LookupError(f"mutant {m['id']}: pattern not found in {rel}: {old[:60]!r}")
         s = s.replace(old, new, m.get("count", 1))
         open(p, "w").write(s)
 
@@ -70,7 +70,14 @@ def main():
             if args.tests:
                 shutil.copytree("/repo/tests", os.path.join(tmp, "tests"))
                 shutil.copy("/repo/pyproject.toml", tmp)
-            apply(tmp, m)
+            try:
+                apply(tmp, m)
+            except LookupError as exc:
+                # the catalogue entry no longer matches the source (e.g. after a fix commit): report, do not stop the sweep
+                print(f"HARNESS-ERR {m['id']:34s} edit does not apply: {exc}", flush=True)
+                for prop in m["props"]:
+                    results.append({"mutant": m["id"], "prop": prop, "caught": False, "rc": None, "rules": [], "tests_pass": None, "error": "edit does not apply"})
+                continue
             tests_ok = None
             if args.tests:
                 env = dict(os.environ, PYTHONPATH=os.path.join(tmp, "src"))
